@@ -266,6 +266,10 @@ impl DepthFirstSearch {
         goal.status = GoalStatus::InProgress;
         goal.depth = depth;
 
+        // Whether THIS goal (not a sub-goal elsewhere in the recursion) has been proven by
+        // one of its own candidate rules. `self.solutions` is shared by all recursion levels.
+        let mut found_solution = false;
+
         // Try each candidate rule
         for rule_name in goal.candidate_rules.clone() {
             self.path.push(rule_name.clone());
@@ -287,10 +291,17 @@ impl DepthFirstSearch {
                             path: self.path.clone(),
                             bindings: goal.bindings.to_map(),
                         });
+                        found_solution = true;
 
                         // If we only want one solution OR we've found enough, stop searching
-                        if self.max_solutions == 1 || self.solutions.len() >= self.max_solutions {
-                            return true; // keep changes
+                        // (sub-goals, depth > 0, need one proof only: their changes must stay for the parent)
+                        if self.max_solutions == 1
+                            || depth > 0
+                            || self.solutions.len() >= self.max_solutions
+                        {
+                            // keep changes: close this candidate's frame into its parent
+                            facts.commit_undo_frame();
+                            return true;
                         }
 
                         // Otherwise (max_solutions > 1 and not enough yet), rollback and continue
@@ -314,12 +325,16 @@ impl DepthFirstSearch {
                                         path: self.path.clone(),
                                         bindings: goal.bindings.to_map(),
                                     });
+                                    found_solution = true;
 
                                     // If we only want one solution OR we've found enough, stop searching
                                     if self.max_solutions == 1
+                                        || depth > 0
                                         || self.solutions.len() >= self.max_solutions
                                     {
-                                        return true; // keep changes
+                                        // keep changes: close this candidate's frame into its parent
+                                        facts.commit_undo_frame();
+                                        return true;
                                     }
 
                                     // Otherwise, rollback and continue searching
@@ -371,7 +386,7 @@ impl DepthFirstSearch {
         }
 
         // If we found at least one solution (even if less than max_solutions), consider it proven
-        if !self.solutions.is_empty() {
+        if found_solution {
             goal.status = GoalStatus::Proven;
             // For negated goals, finding a proof means negation fails
             return !goal.is_negated;
